@@ -875,6 +875,7 @@ func r42AxisOrderFromTable(c *core.Ctx) {
 	info := pk.TypesInfo
 	// the table's keys and the two URI patterns, from the source
 	table := map[uint64]bool{}
+	tableVal := map[uint64]bool{}
 	var patterns []*regexp.Regexp
 	for _, file := range pk.Syntax {
 		for _, d := range file.Decls {
@@ -895,6 +896,7 @@ func r42AxisOrderFromTable(c *core.Ctx) {
 								if kv, ok := el.(*ast.KeyValueExpr); ok {
 									if k, ok := core.ConstInt(info, kv.Key); ok {
 										table[uint64(k)] = true
+										tableVal[uint64(k)] = canon(kv.Value) == "true"
 									}
 								}
 							}
@@ -975,7 +977,8 @@ func r42AxisOrderFromTable(c *core.Ctx) {
 			continue
 		}
 		var doc struct {
-			CRS interface{} `json:"crs"`
+			CRS         interface{} `json:"crs"`
+			OrderedAxes []string    `json:"orderedAxes"`
 		}
 		if json.Unmarshal(raw, &doc) != nil {
 			continue
@@ -1005,6 +1008,24 @@ func r42AxisOrderFromTable(c *core.Ctx) {
 		out, why := evalIsLatLon(f.SSA, vals, table)
 		c.Check(R, construct, f.Decl.Pos(), out == "table" || out == "const", fmt.Sprintf("%s (%s:%s:%s): answered by IsLatLon (%s)", uri, parts[1], parts[2], parts[3], out),
 			fmt.Sprintf("for the built-in set %s (crs %s) IsLatLon %s: the axis order then comes from the informative orderedAxes fallback instead of the EPSG table", name, uri, why))
+		// contradiction rule: the table's answer and the document's own (informative) orderedAxes say the same; if
+		// they differ, one of the two is wrong and the set's origin is read transposed
+		if len(doc.OrderedAxes) == 2 && (out == "table" || out == "const") {
+			first := strings.ToLower(doc.OrderedAxes[0])
+			north := map[string]bool{"lat": true, "latitude": true, "n": true, "northing": true, "y": true}
+			east := map[string]bool{"lon": true, "long": true, "longitude": true, "e": true, "easting": true, "x": true}
+			if north[first] || east[first] {
+				answer := false
+				if out == "table" {
+					if num, err := strconv.ParseUint(parts[3], 10, 64); err == nil {
+						answer = tableVal[num]
+					}
+				}
+				c.Check(R, "axis-order-agrees-with-document/"+name, f.Decl.Pos(), answer == north[first],
+					fmt.Sprintf("IsLatLon = %v, orderedAxes = %v", answer, doc.OrderedAxes),
+					fmt.Sprintf("for the built-in set %s the axis table says lat/lon-first = %v but the document lists its axes as %v: the point of origin is read transposed", name, answer, doc.OrderedAxes))
+			}
+		}
 	}
 	c.Check(R, "axis-order-from-table/sets-found", f.Decl.Pos(), n >= 10, fmt.Sprintf("%d embedded tile matrix sets", n), fmt.Sprintf("only %d embedded tile matrix set documents found under tms20/tilematrixsets", n))
 }
